@@ -6,11 +6,11 @@ M = "qubovert._pcso:"
 BND = ["none", "tuple:real,real", "tuple:none,real", "tuple:real,none", "tuple:none,none"]
 _F = "(den(self) - old(den(self)))"
 
-contract(M + "_empty_pcbo", props=["C03"], instances=[{"pcso": "model:PCSO"}],
+contract(M + "_empty_pcbo", props=["C03", "C14"], instances=[{"pcso": "model:PCSO"}],
          returns="fresh:model:PCBO",
          ensures=["is_empty(result)", "result._ancilla == pcso._ancilla", "isfresh(result)", "wf(result)"])
 
-contract(M + "PCSO.add_constraint_eq_zero", props=["C03", "C16", "C19"], taint=["lam"],
+contract(M + "PCSO.add_constraint_eq_zero", props=["C03", "C14", "C16", "C19"], taint=["lam"],
          instances=[{"self": "model:PCSO", "H": h, "lam": "real", "bounds": b, "suppress_warnings": "bool"}
                     for h in ("termdict", "model:PUSO", "model:PCSO", "model:QUSO") for b in BND],
          requires=["wf(self)", "lam > 0", "isint(sden(H))", "encloses(bounds, sden(H))",
@@ -27,7 +27,7 @@ _N = "(self._ancilla - old(self._ancilla))"
 
 
 def _ineq(name, holds, wit):
-    contract(M + "PCSO." + name, props=["C03", "C16", "C19"], taint=["lam"],
+    contract(M + "PCSO." + name, props=["C03", "C14", "C16", "C19"], taint=["lam"],
              instances=[{"self": "model:PCSO", "H": h, "lam": "real", "log_trick": "bool", "bounds": b,
                          "suppress_warnings": "bool"}
                         for h in ("termdict", "model:PUSO", "model:PCSO") for b in ("none", "tuple:real,real", "tuple:none,real")],
@@ -49,7 +49,7 @@ _ineq("add_constraint_lt_zero", "sden(H) < 0", "-sden(H) - 1")
 _ineq("add_constraint_ge_zero", "sden(H) >= 0", "sden(H)")
 _ineq("add_constraint_gt_zero", "sden(H) > 0", "sden(H) - 1")
 
-contract(M + "PCSO.add_constraint_ne_zero", props=["C03", "C16", "C19"], taint=["lam"],
+contract(M + "PCSO.add_constraint_ne_zero", props=["C03", "C14", "C16", "C19"], taint=["lam"],
          instances=[{"self": "model:PCSO", "H": h, "lam": "real", "log_trick": "bool", "bounds": b,
                      "suppress_warnings": "bool"}
                     for h in ("termdict", "model:PUSO", "model:PCSO") for b in ("none", "tuple:real,real", "tuple:none,real")],
